@@ -502,7 +502,7 @@ func (r *pwRun) exec() {
 		r.opi = i
 		hd = append(hd, pwOpDigest(op))
 		if v := r.step(i, op); v != nil {
-			v.Attrs = mergeAttrsS(v.Attrs, map[string]string{"phase": "ops", "op": op.K, "window": r.windowStr(), "meta_torn": fmt.Sprint(r.metaTorn), "flush_cut": fmt.Sprint(r.flushCut), "after_unapplied_ack": fmt.Sprint(r.unapplied), "multi_shard_flush": fmt.Sprint(r.multiShardFlush()), "split_meta": fmt.Sprint(r.cs.SplitMeta)})
+			v.Attrs = mergeAttrsS(v.Attrs, map[string]string{"phase": "ops", "op": op.K, "window": r.windowStr(), "meta_torn": fmt.Sprint(r.metaTorn), "flush_cut": fmt.Sprint(r.flushCut), "after_unapplied_ack": fmt.Sprint(r.unapplied), "multi_shard_flush": fmt.Sprint(r.multiShardFlush()), "split_meta": fmt.Sprint(r.cs.SplitMeta), "meta_lag": fmt.Sprint(r.cs.MetaLag), "sg_split": fmt.Sprint(r.cs.SGSplit)})
 			if r.known(v) != "" {
 				continue
 			}
@@ -514,7 +514,7 @@ func (r *pwRun) exec() {
 	out.Digest = core.DigestStrings(hd)
 	out.Nontrivial = out.Faults["crash"] > 0 && out.Stats["writes_acked"] > 1
 	if v := r.closing(); v != nil {
-		v.Attrs = mergeAttrsS(v.Attrs, map[string]string{"window": r.windowStr(), "meta_torn": fmt.Sprint(r.metaTorn), "flush_cut": fmt.Sprint(r.flushCut), "after_unapplied_ack": fmt.Sprint(r.unapplied), "multi_shard_flush": fmt.Sprint(r.multiShardFlush()), "split_meta": fmt.Sprint(r.cs.SplitMeta)})
+		v.Attrs = mergeAttrsS(v.Attrs, map[string]string{"window": r.windowStr(), "meta_torn": fmt.Sprint(r.metaTorn), "flush_cut": fmt.Sprint(r.flushCut), "after_unapplied_ack": fmt.Sprint(r.unapplied), "multi_shard_flush": fmt.Sprint(r.multiShardFlush()), "split_meta": fmt.Sprint(r.cs.SplitMeta), "meta_lag": fmt.Sprint(r.cs.MetaLag), "sg_split": fmt.Sprint(r.cs.SGSplit)})
 		if r.known(v) == "" {
 			out.Violation = v
 		}
